@@ -3239,6 +3239,12 @@ class SSHConnection(SSHPacketHandler, asyncio.Protocol):
             _, peer = await self._loop.create_connection(SSHForwarder,
                                                          dest_host, dest_port)
 
+            if not self._transport:
+                # The SSH connection was lost while the destination was
+                # being connected, so nothing will ever use this socket
+                cast(SSHForwarder, peer).close()
+                raise OSError('SSH connection closed')
+
             self.logger.info('  Forwarding TCP connection to %s',
                              (dest_host, dest_port))
         except (OSError, OverflowError, UnicodeError) as exc:
